@@ -160,7 +160,7 @@ def zaddOne (m : List (String × Int)) (member : String) (score : Int) : List (S
   zinsert (member, score) (m.filter (·.1 != member))
 
 def parseScore (s : String) : R Int :=
-  match parseDecInt s with
+  match parseNumInt s with
   | some i => pure (round53 i)
   | none =>
     if looksNumeric s then unsup s!"non-integer sorted-set score {s.quote}"
@@ -183,7 +183,7 @@ def parseBnd (s : String) : R Bnd :=
     let (excl, body) := if hasPrefix s "(" then (true, dropN s 1) else (false, s)
     if body == "-inf" then pure .ninf
     else if body == "+inf" || body == "inf" then pure .pinf
-    else match parseDecInt body with
+    else match parseNumInt body with
       | some i => pure (.val (round53 i) excl)
       | none =>
         if looksNumeric body then unsup s!"non-integer score bound {s.quote}"
